@@ -186,6 +186,8 @@ def check_fn(r, evs, B):
                 B.F.violation("C16:heap-live-at-real-exec:%s" % site.split("@")[0], "call %d: %d block(s) / %d bytes allocated by Snoopy during this call are still live when the real exec is entered (allocated via %s)" % (
                     k, hp["since_mark_snoopy"], hp["since_mark_snoopy_bytes"], fr[:4]), dict(wit, call=k, blocks=hp["blocks"][:6], frames=fr))
             e_hp = en.get("heap")
+            if e_hp.get("snoopy_bad_frees"):
+                B.F.violation("C16:invalid-free", "call %d: the library freed %d block(s) that were not live" % (k, e_hp["snoopy_bad_frees"]), dict(wit, call=k))
             if k == 1:
                 first_live = e_hp["snoopy_live"]
             last_live = e_hp["snoopy_live"]
@@ -312,16 +314,22 @@ def fork_arm(bld, tr, F, tot):
     from vlib.drive import pmap
     from checks.c10 import run_fork
     root = mkwork("c16f")
-    probe = run_fork((bld, 99999, "in-lock", 1, "file", 0, root, 0, True))
-    if "points_seen" not in probe or probe["points_seen"] < 4:
-        rmwork(root)
-        raise Harness("fork arm: could not discover stop points: %s" % probe)
-    npoints = probe["points_seen"]
+    # second configuration: every string option given twice (the second value replaces - and releases - the first)
+    DUP = 'message_format = "first %{cmdline}"\noutput = file:/dev/null\nfilter_chain = "noop"\nfilter_chain = "exclude_uid:77"\nsyslog_ident = "one"\nsyslog_ident = "two"\n'
     jobs = []
     idx = 1
-    for k in range(1, npoints + 1):
-        for victims in ((1, 3) if tr == "quick" else (1, 2, 3, 4)):
-            jobs.append((bld, k, "any", victims, "file", 0, root, idx, True)); idx += 1
+    for extra in ("", DUP):
+        probe = run_fork((bld, 99999, "in-lock", 1, "file", 0, root, 0, True, extra))
+        if "points_seen" not in probe or probe["points_seen"] < 4:
+            rmwork(root)
+            raise Harness("fork arm: could not discover stop points: %s" % probe)
+        npoints = probe["points_seen"]
+        tot["fork.stop_points"] = tot.get("fork.stop_points", 0) + npoints
+        for k in range(1, npoints + 1):
+            for victims in ((1, 3) if tr == "quick" else (1, 2, 3, 4)):
+                if extra and victims != 1:
+                    continue
+                jobs.append((bld, k, "any", victims, "file", 0, root, idx, True, extra)); idx += 1
     for job, ev in zip(jobs, pmap(run_fork, jobs, 12)):
         tot["fork.scenarios"] = tot.get("fork.scenarios", 0) + 1
         if ev.get("harness_timeout") or ev.get("no_event") or ev.get("parked", 0) < 1 or not ev.get("child_done"):
@@ -332,7 +340,7 @@ def fork_arm(bld, tr, F, tot):
             tot["fork.inconclusive"] = tot.get("fork.inconclusive", 0) + 1
             continue
         tot["fork.child_heap_samples"] = tot.get("fork.child_heap_samples", 0) + 1
-        wit = {k: v for k, v in ev.items() if k not in ("records", "child_blocks")}
+        wit = {k: v for k, v in ev.items() if k not in ("records", "child_blocks", "child_bad_free_bt")}
         desc = "child forked while %d other thread(s) were stopped inside the wrapper (%s, point %d)" % (ev["victims"], ev["stop_kind"], ev["stop_at"])
         # (a) what the library keeps a reference to: its thread repository must hold the child's own thread only
         recs = [x for x in ev.get("records", []) if x.startswith("/bin/CHILDz|")]
@@ -341,6 +349,12 @@ def fork_arm(bld, tr, F, tot):
             if recs[0].split("|")[-1] != "1":
                 F.violation("C16:fork-child:entries-of-threads-that-do-not-exist-kept", "%s: the library tracks %s threads in the child during its call, the child has one" % (
                     desc, recs[0].split("|")[-1]), wit)
+        # (a') the child's fork handler and its own call must only free blocks that are live (a block the vanished thread had
+        # already released at the instant of the fork, but still pointed to, must not be released again)
+        if ev.get("child_bad_frees"):
+            where = [symbolize(bld, bt)[:3] for bt in ev.get("child_bad_free_bt", [])[:2]]
+            F.violation("C16:fork-child:double-free", "%s: the library freed %d block(s) in the child that were not live (double free: the heap of the child is corrupted); freed at %s" % (
+                desc, ev["child_bad_frees"], where), dict(wit, freed_at=where))
         # (b) strings owned by a configuration (allocated by the config file value handlers) are referenced from a repository
         # entry from the moment they are allocated until the owner's cleanup frees them: one that is still live after the
         # child's own complete call belonged to an entry of a vanished thread and was not released with it.  Blocks a vanished
